@@ -361,6 +361,17 @@ func ParseAURI(s string) AURI {
 		u.Raw = s
 		return u
 	}
+	// userinfo ends at the '@' (user-unreserved allows ';' and '?', RFC 3261 §25.1; neither
+	// hostport, parameters nor headers may contain an unescaped '@')
+	if at := strings.LastIndexByte(s, '@'); at >= 0 {
+		ui := s[:at]
+		s = s[at+1:]
+		if c := strings.IndexByte(ui, ':'); c >= 0 {
+			u.User, u.Pass, u.HasPW = ui[:c], ui[c+1:], true
+		} else {
+			u.User = ui
+		}
+	}
 	if q := strings.IndexByte(s, '?'); q >= 0 {
 		for _, h := range strings.Split(s[q+1:], "&") {
 			if i := strings.IndexByte(h, '='); i >= 0 {
@@ -370,16 +381,6 @@ func ParseAURI(s string) AURI {
 			}
 		}
 		s = s[:q]
-	}
-	// userinfo ends at the last '@' before any ';' that follows it
-	if at := strings.IndexByte(s, '@'); at >= 0 {
-		ui := s[:at]
-		s = s[at+1:]
-		if c := strings.IndexByte(ui, ':'); c >= 0 {
-			u.User, u.Pass, u.HasPW = ui[:c], ui[c+1:], true
-		} else {
-			u.User = ui
-		}
 	}
 	parts := strings.Split(s, ";")
 	hp := parts[0]
